@@ -200,6 +200,50 @@ def control_armed(hits) -> tuple[bool, list[str]]:
     return ok, names
 
 
+def incomplete_equality(prog: Program, module_prefixes=("lerax.",), exempt_modules=("lerax.space",)) -> list[tuple]:
+    """Classes that define `__eq__` without comparing all of their state. JAX and Equinox key their compilation caches on the equality
+    and hash of static arguments (gymnax jits `step(self, ...)` with `self` static; `eqx.filter_jit` treats every non-array leaf - a
+    wrapped function, a name - as static): two objects that compare equal although they are configured differently silently share one
+    compiled program, i.e. one of them runs with the other's constants. A class's state is its dataclass fields plus every attribute
+    its `__init__` assigns; each must be compared as a whole (`self.f == other.f`, `array_equal(self.f, other.f)`, a tuple of them) -
+    reading only a sub-attribute (`self.env.name`, `self.func.__code__`) does not compare the field.
+    Returns (class qualname, module relpath, lineno, [fields not compared])."""
+    out = []
+    for ci in prog.classes.values():
+        if not ci.qualname.startswith(tuple(module_prefixes)) or ci.module.name.startswith(tuple(exempt_modules)):
+            continue
+        fn = ci.methods.get("__eq__")
+        if fn is None:
+            continue
+        state = set(ci.fields)
+        init = ci.methods.get("__init__")
+        if init is not None:
+            for n in ast.walk(init):
+                tg = n.targets if isinstance(n, ast.Assign) else ([n.target] if isinstance(n, (ast.AnnAssign, ast.AugAssign)) else [])
+                for t in tg:
+                    for e in (t.elts if isinstance(t, (ast.Tuple, ast.List)) else [t]):
+                        if isinstance(e, ast.Attribute) and isinstance(e.value, ast.Name) and e.value.id == "self":
+                            state.add(e.attr)
+        args = [a.arg for a in fn.args.posonlyargs + fn.args.args]
+        if len(args) < 2:
+            continue
+        me, other = args[0], args[1]
+        inner = {id(n.value) for n in ast.walk(fn) if isinstance(n, ast.Attribute)}  # attribute nodes that are only the base of another
+        whole = {me: set(), other: set()}
+        for n in ast.walk(fn):
+            if isinstance(n, ast.Attribute) and isinstance(n.value, ast.Name) and n.value.id in whole and id(n) not in inner:
+                whole[n.value.id].add(n.attr)
+        # `other` may be re-bound after an isinstance / cast: any second name whose attributes mirror self's counts as the other operand
+        others = set(whole[other])
+        for n in ast.walk(fn):
+            if isinstance(n, ast.Attribute) and isinstance(n.value, ast.Name) and n.value.id not in (me,) and id(n) not in inner:
+                others.add(n.attr)
+        missing = sorted(f for f in state if not (f in whole[me] and f in others))
+        if missing:
+            out.append((ci.qualname, ci.module.relpath, fn.lineno, missing))
+    return out
+
+
 def module_level_state(prog: Program, m: ModuleInfo) -> list[Hit]:
     """Module-level mutable containers that functions of the module mutate (counters, caches, shared defaults) - directly or
     through a local alias (`d = DEFAULTS; d |= overrides` rewrites DEFAULTS for every later user)."""
